@@ -626,7 +626,7 @@ fn w_names(w: u8, https: bool) -> String {
     v.join(" | ")
 }
 
-const PROBE_HOSTS: [&str; 7] = ["a", "x.a", "xa", "b", "b.a", "c", "c."];
+const PROBE_HOSTS: [&str; 8] = ["a", "x.a", "xa", "b", "b.a", "c", "c.", "[::1]"];
 const PROBE_SCHEMES: [&str; 2] = ["http", "https"];
 
 fn proxy_value(var: usize, kind: &str) -> Option<String> {
@@ -639,19 +639,21 @@ fn proxy_value(var: usize, kind: &str) -> Option<String> {
         "https" => Some(format!("HTTPS://p{var}s.test:32{var}0/")),
         "socks" => Some(format!("socks5://p{var}k.test:1080")),
         "garbage" => Some("not a url".to_string()),
+        // a bare host name, no scheme: not a URL, never a proxy
+        "barehost" => Some(format!("p{var}b.test")),
         _ => unreachable!(),
     }
 }
 
 fn proxy_kinds(tier: Tier) -> Vec<&'static str> {
-    // the same seven kinds in both tiers; the tiers differ in the NO_PROXY menu
+    // the same eight kinds in both tiers; the tiers differ in the NO_PROXY menu
     let _ = tier;
-    vec!["unset", "empty", "blank", "http", "https", "socks", "garbage"]
+    vec!["unset", "empty", "blank", "http", "https", "socks", "garbage", "barehost"]
 }
 
 fn np_menu(tier: Tier) -> Vec<Option<String>> {
     let v: Vec<Option<&str>> = match tier {
-        Tier::Quick => vec![None, Some(""), Some("*"), Some(".a"), Some(" A , b.a "), Some("a,,b"), Some("b, .a")],
+        Tier::Quick => vec![None, Some(""), Some("*"), Some(".a"), Some(" A , b.a "), Some("a,,b"), Some("b, .a"), Some("c,[::1]")],
         Tier::Thorough => vec![
             None,
             Some(""),
@@ -667,6 +669,8 @@ fn np_menu(tier: Tier) -> Vec<Option<String>> {
             Some("b.a,"),
             Some("b, .a"),
             Some(" .b.a ,c"),
+            Some("[::1]"),
+            Some("c,[::1]"),
         ],
     };
     v.into_iter().map(|o| o.map(|s| s.to_string())).collect()
